@@ -121,6 +121,8 @@ def one_case(spec, opts, fault, ftype="exception", pre_runs=0):
     # a later forward run equals the forward run of an untouched twin
     try:
         kw = runner.sim_kwargs(opts)
+        if opts.get("fwd_omit_flag"):
+            kw.pop("perform_auto_task_while_absence_time", None)  # the later forward run leaves the automatic-task keyword out (the backward run had set it)
         a.project.simulate(**dict(kw, absence_time_list=cal))
         b.project.simulate(**kw)
         da, db = jdump(a), jdump(b)
@@ -209,6 +211,18 @@ def items(tier):
         for rev in (True, False):
             out.append((sp, {"rule": "TSLACK", "due": False, "rev": rev, "absence": [], "max_time": F.seq_bound(sp) + 12}))
         out.append((sp, {"rule": "TSLACK", "due": False, "rev": True, "absence": [0, 1], "max_time": F.seq_bound(sp) + 12}))
+    # a backward run that asked for automatic tasks to go on during absence, followed by a forward run that leaves the keyword out
+    for sp in F.auto_component_specs()[:: (2 if tier == "quick" else 1)] + [c08.base_models()[2]]:
+        for ab in ([1], [0, 2], [2, 3]):
+            for rev in (True, False):
+                out.append((sp, {"rule": "TSLACK", "due": False, "rev": rev, "absence": ab, "auto_abs": True, "fwd_omit_flag": True, "max_time": F.seq_bound(sp) + 14}))
+    # a tail task that is complete from the start and due long before the other tail (the due-time helper of the late tail runs alone for a long while)
+    for d_early, d_late in ((5, 40), (2, 12), (0, 9)):
+        fl = {"tasks": [{"name": "T0", "work": 2.0}, {"name": "T1", "work": 2.0, "due": d_late}, {"name": "T2", "work": 1.0, "progress": 1.0, "due": d_early}], "links": [[0, 1, "FS"]]}
+        for lay in ("POOL1", "POOL2"):
+            sp = F.with_teams(fl, lay)
+            for rev in (True, False):
+                out.append((sp, {"rule": "TSLACK", "due": True, "rev": rev, "absence": [], "max_time": d_late + 20}))
     for sp, o in list(out)[:: (29 if tier == "quick" else 7)]:
         out.append((sp, dict(o, via_json=True)))
     for sp, o in list(out)[:: (23 if tier == "quick" else 6)]:
